@@ -85,7 +85,7 @@ fn bits(v: &[f64]) -> Vec<u64> {
 }
 
 fn run(ctx: &mut Ctx) {
-    let m = Model::load(REPO);
+    let m = Model::load(&repo_root());
     // ---- 1. pad deconvolution == plain definition
     let n = ctx.tier.pick(4000, 200_000);
     ctx.cases("pads", n, |ctx, i, rng| {
